@@ -1,5 +1,5 @@
 (* P_C19.v — property theorems for C19 only. *)
-From ZT Require Import Base Threads ThreadsFacts.
+From ZT Require Import Base Threads ThreadsFacts ThreadsOnce.
 
 (* After each test exactly the threads started during that test, still running, and not ignored are reported —
    for every history in which no OS ident is re-used between a low-level thread and a thread of the snapshot. *)
@@ -18,3 +18,25 @@ Print Assumptions C19_ident_reuse_refuted.
 Theorem C19_stale_dummy_refuted : exists init h, reports (trun init h) <> s_reports (srun init h).
 Proof. exact c19_stale_dummy_refuted. Qed.
 Print Assumptions C19_stale_dummy_refuted.
+
+(* "A leaked thread is reported only for the test that started it", over whole histories: when every stopTest follows its
+   startTest, the number of reports naming a thread identity never exceeds the number of times a thread with that identity was
+   started — of the statement (srun) and, through C19_exact, of the runner's mechanism (trun). *)
+Theorem C19_reported_at_most_as_often_as_started : forall init h id,
+  idents_fresh init h = true -> bracketed false h = true ->
+  n_reports id (reports (trun init h)) <= n_starts id h.
+Proof. exact runner_reports_at_most_as_often_as_started. Qed.
+Print Assumptions C19_reported_at_most_as_often_as_started.
+
+Theorem C19_thread_started_once_reported_for_one_test : forall init h id,
+  idents_fresh init h = true -> bracketed false h = true -> n_starts id h = 1 ->
+  n_reports id (reports (trun init h)) <= 1.
+Proof. exact thread_started_once_reported_for_one_test. Qed.
+Print Assumptions C19_thread_started_once_reported_for_one_test.
+
+(* threads that existed before the run are never reported *)
+Theorem C19_thread_never_started_never_reported : forall init h id,
+  idents_fresh init h = true -> bracketed false h = true -> n_starts id h = 0 ->
+  forall r, In r (reports (trun init h)) -> mem id (snd r) = false.
+Proof. exact thread_never_started_never_reported. Qed.
+Print Assumptions C19_thread_never_started_never_reported.
